@@ -323,8 +323,11 @@ def load_known_findings(pid: str):
 
 
 def write_evidence(pid: str, ev: dict):
-    EVIDENCE.mkdir(exist_ok=True)
-    (EVIDENCE / f"{pid}.json").write_text(json.dumps(ev, indent=1, default=str) + "\n")
+    """evidence/<id>.json describes a run against /repo itself; a run against a scratch tree ($VERIF_REPO, used for
+    trying repairs and seeded changes) writes its record under _build/ instead"""
+    d = EVIDENCE if not os.environ.get("VERIF_REPO") else BUILD / "evidence-scratch"
+    d.mkdir(parents=True, exist_ok=True)
+    (d / f"{pid}.json").write_text(json.dumps(ev, indent=1, default=str) + "\n")
 
 
 def run_coqchk(pid: str, timeout: int = 1500) -> dict:
